@@ -525,6 +525,14 @@ def must_checks(C, P):
             C.fail('C08-MUST-checks', 'parse_character_data|Pattern|validator-result-not-tested', 'result of check_fn is not branched on', pc.where(ipos))
     elif not pat_ok:
         C.anchor_missing('C08-MUST-checks', 'parse_character_data Pattern arm accept points')
+    # the pattern (and the length limit) is applied to the DECODED text, i.e. to the value that is stored: a text whose escaped form matches
+    # but whose decoded form does not (`1.0.0;&#10;x` for [0-9]+\.[0-9]+\.[0-9]+([\._;].*)?) would be accepted although the stored value violates its pattern
+    if len(ind) == 1:
+        from flow import deep_sources as _ds
+        n_, c_, f_ = _ds(pc, ind[0][1]['args'][0], depth=14) if ind[0][1]['args'] else (set(), set(), set())
+        C.check(any((x or '').endswith('unescape_string') for x in c_), 'C08-MUST-checks', 'parse_character_data|Pattern|validator-sees-decoded-text',
+                'the pattern validator is applied to the text before entity decoding while the decoded text is stored: a value whose decoded form violates its pattern is accepted by strict loading (and a valid value written with a character reference is rejected)',
+                pc.where(ind[0][0]), sample={'fn': 'parse_character_data', 'arm': 'Pattern', 'validated': 'result of unescape_string'})
     # max_length tests: a read of .max_length in each of Pattern and String arms, compared, true edge reports
     for arm, accepts in (('Pattern', pat_ok), ('String', str_ok)):
         gts = []
@@ -532,6 +540,16 @@ def must_checks(C, P):
             if s['k'] == 'assign' and s['rv']['k'] == 'bin' and s['rv']['op'] == 'Gt' and pos in pc.reach_from((arms[arm], 0), include_start=True):
                 gts.append(pos)
         C.check(len(gts) >= 1, 'C08-MUST-checks', 'parse_character_data|%s|length-compare' % arm, 'no `len > max_length` comparison in the %s arm' % arm)
+        if arm == 'Pattern':
+            from flow import deep_sources as _ds2
+            for g in gts:
+                st_ = pc.blocks[g[0]]['stmts'][g[1]]
+                cs_ = set()
+                for o_ in (st_['rv']['a'], st_['rv']['b']):
+                    if is_local_op(o_):
+                        cs_ |= _ds2(pc, o_, depth=14)[1]
+                C.check(any((x or '').endswith('unescape_string') for x in cs_), 'C08-MUST-checks', 'parse_character_data|Pattern|length-of-decoded-text',
+                        'the length limit of a Pattern value is compared with the length of the text before entity decoding, not with the length of the stored value', pc.where(g))
         for g in gts:
             # the comparison feeds a switch; on its true edge optional_error must be passed before any accept
             bi = g[0]
@@ -591,6 +609,19 @@ def must_checks(C, P):
     C.check(len(amp) == 4 and n_guarded == 3, 'C08-MUST-checks', 'unescape_string|raw-ampersand-only-after-report',
             "expected 4 pushes of '&' (1 for &amp;, 3 after a reported malformed entity); found %d, %d guarded" % (len(amp), n_guarded),
             sample={'fn': 'unescape_string', 'pushes_of_amp': len(amp), 'after_report': n_guarded})
+
+    # numeric character references: std's integer parsers also accept a leading '+', which XML does not; the digits are therefore tested
+    # by form (all ascii (hex) digits) on the way to every conversion
+    from pairing import guarded_by_true as _gbt
+    convs = [pos for pos, t in us.iter_calls() if call_matches(t, r'from_str_radix$|FromStr>?::from_str$|<impl str>::parse$')]
+    forms = [pos for pos, t in us.iter_calls() if call_matches(t, r'Iterator>?::all$')]
+    nconv = 0
+    for cp in convs:
+        nconv += 1
+        okf = any(_gbt(us, cp, fp) for fp in forms)
+        C.check(okf, 'C08-MUST-checks', 'unescape_string|character-reference-digits-tested-by-form', 'a numeric character reference is converted with a std integer parser without a test that it consists of digits only: "&#x+41;" / "&#+65;" are accepted as "A" by strict loading although they are malformed',
+                us.where(cp), sample={'fn': 'unescape_string', 'conversion_guarded_by': 'bytes().all(is_ascii_(hex)digit)'} if nconv == 1 else None)
+    C.check(nconv >= 2, 'C08-MUST-checks', 'unescape_string|two-numeric-reference-forms', 'expected a hexadecimal and a decimal character-reference conversion in unescape_string, found %d' % nconv)
 
     # element-level reports exist
     fe = P.get('ArxmlParser::find_element_in_spec_checked')
